@@ -3,11 +3,12 @@
 From Coq Require Import String.
 From Coq Require Import List NArith.
 From Coq.Strings Require Import Byte.
-From Borsh Require Import Bytes Result Ty Ser De Entry Schema SchemaFns SchemaSpec.
+From Borsh Require Import Bytes Result Ty Ser De Entry Schema SchemaFns SchemaSpec ArrayGuard.
 Require Import ExtrOcamlBasic.
 Extraction Language OCaml.
 Extraction "model.ml"
   N.add N.mul N.div_eucl N.compare Byte.of_N Byte.to_N
   enc ser dec_slice logical has_ty wf mem_zst default_of cmp_val
   slice_reader try_from_slice try_from_reader object_length
-  max_size max_size_at validate is_zero_size max_unbounded.
+  max_size max_size_at validate is_zero_size max_unbounded
+  ArrayGuard.deserialize.
